@@ -222,7 +222,7 @@ pub fn conv_case(u: &mut Unstructured<'_>) -> R<(&'static str, ConvCase)> {
         if Some(i) == mal_at {
             let nh = r.headers.len().max(1);
             let m = match u.int_in_range(0u8..=9)? {
-                0 => Malform::ReqLineFields(u.int_in_range(0..=2u8)?),
+                0 => Malform::ReqLineFields(u.int_in_range(0..=3u8)?),
                 1 => Malform::VersionToken(pick(u, &["HTTP/1.2", "HTTP/2", "http/1.1", "HTTP/1.1x", "xyz"])?.to_string()),
                 2 => Malform::VersionToken(pick(u, &["HTTP/2.0", "HTTP/3.0"])?.to_string()),
                 3 => Malform::HeaderNoColon { at: u.int_in_range(0..=nh)?, text: pick(u, &["NoColon", " ", "\t", "a b"])?.to_string() },
